@@ -6,7 +6,8 @@ import glob, json, os, shutil, subprocess, sys, tempfile
 ROOT = os.path.dirname(os.path.dirname(os.path.abspath(__file__)))
 AREAS = {'C02': ['C02', 'C18', 'C20'], 'C08': ['C04', 'C08', 'C09', 'C19'], 'C10': ['C10', 'C11', 'C16'], 'C16': ['C16', 'C18', 'C09', 'C20'], 'C06': ['C05', 'C06', 'C07'],
          'C15': ['C15'], 'C12': ['C12'], 'C13': ['C13'], 'C20': ['C20', 'C09', 'C02'], 'C17': ['C17', 'C09'],
-         'C18': ['C18', 'C16', 'C02'], 'C19': ['C19', 'C08'], 'C09': ['C09', 'C17', 'C08', 'C04'], 'C11': ['C11', 'C10'], 'C05': ['C05', 'C06', 'C07'], 'C14': ['C14'], 'C04': ['C04', 'C08', 'C09']}
+         'C18': ['C18', 'C16', 'C02'], 'C19': ['C19', 'C08'], 'C09': ['C09', 'C17', 'C08', 'C04'], 'C11': ['C11', 'C10'], 'C05': ['C05', 'C06', 'C07'], 'C14': ['C14'], 'C04': ['C04', 'C08', 'C09'],
+         'C04b': ['C04', 'C05', 'C06', 'C07'], 'C06b': ['C06', 'C05', 'C07'], 'C12b': ['C12'], 'C13b': ['C13'], 'C17b': ['C17', 'C09'], 'C20b': ['C20', 'C09', 'C02'], 'C02b': ['C02', 'C18', 'C20'], 'C18b': ['C18', 'C16', 'C02']}
 
 
 def main():
